@@ -16,6 +16,7 @@ type JOp struct {
 	Key string `json:"key,omitempty"` // branch / pool name
 	ID  int    `json:"id,omitempty"`  // spec id (rename, rmid)
 	New string `json:"new,omitempty"` // rename target
+	Arg string `json:"arg,omitempty"` // how a "tip" is realized on the real lake (ignored by the spec)
 }
 
 // JScenario is one parameter set of Journal.tla.
